@@ -144,8 +144,13 @@ fn extract<'tcx>(tcx: TyCtxt<'tcx>, krate: &str, is_test: bool) -> J {
             for (pi, pb) in proms.iter_enumerated() {
                 fns.push(dump_fn(tcx, ldid, kind, pb, Some(pi.as_usize())));
             }
-        } else if matches!(kind, DefKind::Const { .. } | DefKind::AssocConst { .. }) {
-            // evaluated below in consts
+        } else if matches!(kind, DefKind::Const { .. }) {
+            // scalar values are evaluated below in `consts`; the initialiser body of a non-generic named constant is dumped too, so that
+            // an array / aggregate constant (`const SYMBOLS: [Nucleotide; 4] = [..]`) can be tabulated like a promoted one
+            if !tcx.generics_of(did).requires_monomorphization(tcx) {
+                let body: &Body<'tcx> = tcx.mir_for_ctfe(did);
+                fns.push(dump_fn(tcx, ldid, kind, body, None));
+            }
         }
     }
     top.set("fns", J::Arr(fns));
